@@ -57,6 +57,10 @@ class C05(Property):
             {"kind": "lim", "obj": "tlimit", "n": 1, "scripts": [[[3, 0], [4, 0], [4, 0]], [[3, 0]], [[3, 1]]], "sched": [0, 1, 2, 0, 0]},
             {"kind": "lim", "obj": "maxconns", "n": 1, "scripts": [[[5, 1], [5, 0]], [[5, 0]], [[5, 0]]], "sched": [0, 1, 0, 2, 2, 0]},
             {"kind": "tr", "n": 1, "scripts": [[[0, 1], [1, 0]], [[0, 0]]], "sched": [0, 0, 1, 2, 3]},
+            {"kind": "wp", "obj": "mr", "n": 2, "items": [0, 1, 0, 0], "scripts": [[[0, 0]]], "sched": [0, 2, 1, 3]},
+            {"kind": "wp", "obj": "fx", "n": 1, "items": [1, 0, 1], "scripts": [[[0, 0]]], "sched": [0, 1, 2, 3]},
+            {"kind": "wp", "obj": "fxp", "n": 2, "items": [0, 1, 0, 0, 0], "scripts": [[[0, 0]]], "sched": [0, 2, 1, 4, 3, 5]},
+            {"kind": "wp", "obj": "mr", "n": 3, "items": [0, 0, 0, 0, 0], "scripts": [[[0, 0]]], "sched": [3, 0, 3, 1, 2, 5, 4]},
             {"kind": "tr", "n": 2, "scripts": [[[1, 1], [1, 0], [1, 0]], [[0, 0], [0, 1]]], "sched": [0, 0, 0, 1, 1, 2, 3, 4]},
             {"kind": "pl", "n": 1, "maxage": 100, "scripts": [[[0, 0], [1, 0], [2, 500], [0, 0], [1, 0]], [[0, 0], [1, 0]]], "sched": [0, 1, 0, 0, 0, 0]},
             {"kind": "pl", "n": 2, "maxage": 100, "scripts": [[[0, 0], [0, 0], [1, 0], [1, 0], [2, 150], [0, 0]], [[0, 0], [1, 0]]], "sched": [0, 0, 1, 0, 0, 0, 0, 1]},
@@ -90,7 +94,20 @@ class C05(Property):
         rest = [rng.randrange(nt) for _ in range(rng.randint(nt, 4 * nt))]
         return {"kind": "pl", "n": n, "maxage": rng.choice([0, 0, 100]), "scripts": scripts, "sched": first + rest}
 
+    def _workers(self, rng):
+        """mr.ForEach / fx Walk / fx Parallel with WithWorkers(n); gated mapper / walk functions, some panic"""
+        n = rng.choice([1, 1, 2, 2, 3])
+        k = rng.randint(1, 6)
+        items = [1 if rng.random() < 0.25 else 0 for _ in range(k)]
+        sched = [0] + [rng.randint(0, k) for _ in range(rng.randint(k, 3 * k))]
+        if rng.random() < 0.15:
+            rng.shuffle(sched)
+        return {"kind": "wp", "obj": rng.choice(["mr", "mr", "fx", "fxp"]), "n": n, "items": items,
+                "scripts": [[[0, 0]]], "sched": sched}
+
     def _random(self, rng):
+        if rng.random() < 0.2:
+            return self._workers(rng)
         kind = rng.choice(["lim", "lim", "lim", "tr", "tr", "pl", "pl"])
         n = rng.choice([1, 1, 2, 2, 3, 4])
         nt = rng.randint(1, 6)
@@ -206,6 +223,9 @@ class C05(Property):
             sc = clist([clist([("RSched %s" if o[0] == 0 else "RSchedNow %s") % cbool(o[1] == 1) for o in s])
                         for s in case["scripts"]])
             return "(KTR %d%%nat %s)" % (case["n"], sc)
+        if case["kind"] == "wp":
+            return "(KWP %s %d%%nat %s)" % ("WMr" if case["obj"] == "mr" else "WFx", case["n"],
+                                           clist([cbool(x == 1) for x in case["items"]]))
         sc = clist([clist([{0: "PGet", 1: "PPut", 2: "PAdv %s" % cz(o[1])}[o[0]] for o in s]) for s in case["scripts"]])
         return "(KPL %d%%nat %s %s)" % (case["n"], cz(case.get("maxage", 0)), sc)
 
@@ -228,7 +248,7 @@ class C05(Property):
                    for e in obs.get("log", []))
 
     def features(self, case, obs):
-        fs = ["kind=%s" % (case["kind"] if case["kind"] != "lim" else case["obj"]), "n=%d" % case["n"],
+        fs = ["kind=%s" % (case["kind"] if case["kind"] not in ("lim", "wp") else case["obj"]), "n=%d" % case["n"],
               "threads=%d" % len(case["scripts"])]
         log = obs.get("log", [])
         if any(e[2] == 4 for e in log):
@@ -241,6 +261,8 @@ class C05(Property):
             fs.append("has_handler_panic")
         if case["kind"] == "tr" and any(o[1] == 1 for s in case["scripts"] for o in s):
             fs.append("has_task_panic")
+        if case["kind"] == "wp" and any(case["items"]):
+            fs.append("has_worker_panic")
         if any(e[2] == 6 for e in log):
             fs.append("has_expiry_destroy")
         if any(s["skip"] for s in obs.get("steps", [])):
@@ -250,6 +272,10 @@ class C05(Property):
     def shrink_candidates(self, case):
         res = []
         sc, sched = case["scripts"], case["sched"]
+        if case["kind"] == "wp" and len(case["items"]) > 1:
+            c = dict(case)
+            c["items"] = case["items"][:-1]
+            res.append(c)
         nt = len(sc)
         for t in range(nt):
             if nt > 1 and case["kind"] != "tr":
